@@ -387,6 +387,33 @@ def gen_program(r, engine='sqlite'):
   return '\n'.join(lines) + '\n', requestable
 
 
+def gen_family(r):
+  """Requests of several predicates where one requested predicate has two or more of the OTHER requested ones as
+  grounded intermediates (each of them is then both final and intermediate and gets renamed); every order of
+  the request is tried."""
+  import itertools
+  lines = ['@Engine("sqlite");']
+  for v in sorted(set(r.randint(0, 6) for _ in range(r.randint(2, 5)))):
+    lines.append('B0(%d);' % v)
+  k = r.choice([2, 2, 3])
+  mids = ['G%d' % i for i in range(k)]
+  for i, g in enumerate(mids):
+    lines.append('@Ground(%s);' % g)
+    if i > 0 and r.random() < 0.4:
+      lines.append('%s(x + %d) distinct :- %s(x);' % (g, i, mids[i - 1]))
+    else:
+      lines.append('%s(x + %d) distinct :- B0(x), x > %d;' % (g, i, r.randint(0, 2)))
+  top = 'Top'
+  if r.random() < 0.5:
+    lines.append('@Ground(%s);' % top)
+  lines.append('%s(x) distinct :- %s;' % (top, r.choice([' | ', ', ']).join('%s(x)' % g for g in mids)))
+  req = mids + [top]
+  orders = [list(o) for o in itertools.permutations(req)]
+  if len(orders) > 6:
+    orders = r.sample(orders, 6)
+  return '\n'.join(lines) + '\n', orders
+
+
 class PlanRecorder:
   """Captures what ExecuteLogicaProgram hands to Concertina and what the engine is asked to run."""
 
@@ -558,6 +585,9 @@ def run(tier, replay=None):
           k = r.randint(2, min(3, len(req))) if len(req) >= 2 else 1
           subsets.append(sorted(r.sample(req, k)))
         programs.append((text, subsets, False))
+      for i in range(3 if tier == 'quick' else 40):
+        text, orders = gen_family(r)
+        programs.append((text, orders, False))
       for i in range(6 if tier == 'quick' else 100):      # compiled only: diamond mode, stop signals
         text, req = gen_program(r, 'duckdb')
         programs.append((text, [sorted(r.sample(req, min(len(req), r.randint(1, 3))))], True))
